@@ -77,21 +77,21 @@ def required(tier):
 
 def gen_cfg(rng, i, tier, pmax=None):
     M = int(rng.integers(1, 13))
-    if i % 7 == 3:
+    if common.stratum(i, 81, 7) == 3:
         M = 1
-    elif i % 11 == 5:
+    elif common.stratum(i, 82, 11) == 5:
         M = 12
     plist = P_THOROUGH if tier == 'thorough' else P_QUICK
     if pmax:
         plist = [p for p in plist if p <= pmax]
     P = int(common.pick(rng, plist))
-    if i % 13 == 6:
+    if common.stratum(i, 83, 13) == 6:
         P = 2
-    elif i % 17 == 9:
+    elif common.stratum(i, 84, 17) == 9:
         P = plist[-1 - int(rng.integers(0, 3))]
     if M * P < 4:
         M = 2 + int(rng.integers(0, 6))
-    wname = WINDOWS[(i // 15) % len(WINDOWS)]
+    wname = common.stratum(i, 85, WINDOWS)
     win = ['kaiser', float(common.pick(rng, [0.5, 2.0, 5.0, 8.6, 14.0]))] if wname == 'kaiser' else wname
     return dict(M=M, P=P, win=win)
 
@@ -131,7 +131,7 @@ def gen_cases(seed, tier):
     cases = []
     for i in range(n):
         kind = KINDS[i % 3]
-        dtype = DTYPES[(i // 3) % len(DTYPES)]
+        dtype = common.stratum(i, 86, DTYPES)
         family = FAMILIES[int(rng.integers(len(FAMILIES)))]
         c = dict(kind=kind, dtype=dtype, family=family, scale=float(common.pick(rng, [1.0, 1.0, 1e-3, 3e4, 1e-10, 1e-12])),
                  sub=int(rng.integers(2 ** 31)))
@@ -139,25 +139,25 @@ def gen_cases(seed, tier):
             c['cfg'] = gen_cfg(rng, i, tier)
             mp = c['cfg']['M'] * c['cfg']['P']
             j = i // 3
-            c['W'] = 1 if j % 9 == 4 else int(rng.integers(2, 7))
-            c['extra'] = int(rng.integers(1, mp)) if j % 2 else 0
-            c['cache'] = bool((j // 2) % 2)
+            c['W'] = 1 if common.stratum(j, 87, 9) == 4 else int(rng.integers(2, 7))
+            c['extra'] = int(rng.integers(1, mp)) if common.stratum(j, 88, 2) else 0
+            c['cache'] = bool(common.stratum(j, 89, 2))
             c['ab'] = [float(np.round(rng.uniform(-3, 3), 3)), float(np.round(rng.uniform(-3, 3), 3))]
         elif kind == 'compose':
             c['cfg'] = gen_cfg(rng, i, tier)
             j = i // 3
-            W = [2, 3, 4, 5, 6, 1, 3, 4, 5, 6, 7, 8][j % 12]
+            W = common.stratum(j, 90, [2, 3, 4, 5, 6, 1, 3, 4, 5, 6, 7, 8])
             c['W'] = W
             if W <= 6:
                 c['comps'] = None                     # exhaustive, enumerated in the worker
             else:
                 comps = [[1] * W, [W], [1, W - 1], [W - 1, 1]] + [random_composition(rng, W) for _ in range(20)]
                 c['comps'] = comps
-            c['explicit_flag'] = bool(j % 2)          # cache=True passed explicitly or left to the default
+            c['explicit_flag'] = bool(common.stratum(j, 91, 2))          # cache=True passed explicitly or left to the default
         else:
             j = i // 3
-            nobj = 1 + (j % 3)
-            same = bool((j // 3) % 2)
+            nobj = 1 + common.stratum(j, 92, 3)
+            same = bool(common.stratum(j, 93, 2))
             base = gen_cfg(rng, i, tier, pmax=256)
             cfgs = [base]
             for q in range(1, nobj):
